@@ -369,7 +369,9 @@ class Base:
         r = Val.r(t)
         c = smt.CLS[r]
         n = z3.Select(st.H("$len"), r)
-        other = smt.fresh("truthy", z3.BoolSort())
+        tf = self.get_uf("truthy_obj", [IntS, IntS], z3.BoolSort())
+        other = tf(r, getattr(st, "heap_epoch", z3.IntVal(0)))
+        self.note("truthiness of an object of statically unknown class is an uninterpreted function of (object, havoc epoch)")
         # containers by length; Token by its __bool__; classes without __bool__/__len__ are truthy
         tok = self.classes.by_name.get("Token")
         res = other
